@@ -836,3 +836,18 @@ impl Send {
         self.prioritize.verif_dump(store, out, queues);
     }
 }
+
+#[cfg(feature = "verif-hooks")]
+impl Send {
+    /// `[next_stream_id (-1 = overflowed), max_stream_id, is_push_enabled]` (verification hook, read-only).
+    pub(super) fn verif_disp_ids(&self) -> [i64; 3] {
+        [
+            match self.next_stream_id {
+                Ok(id) => u32::from(id) as i64,
+                Err(_) => -1,
+            },
+            u32::from(self.max_stream_id) as i64,
+            self.is_push_enabled as i64,
+        ]
+    }
+}
